@@ -170,6 +170,7 @@ type Report struct {
 	HasView     bool           `json:"has_view"`
 	MalTried    int            `json:"mal_tried"`
 	PlanHash    int            `json:"plan_hashes"`
+	OddVectors  bool           `json:"odd_vectors"` // the type contains a vector/bitvector whose length is not a power of two
 	AliasProbes int            `json:"alias_probes"`
 	MalByKind   map[string]int `json:"mal_by_kind,omitempty"`
 }
@@ -337,6 +338,7 @@ func cmdCheck(args []string) {
 
 func checkOne(te *sszreg.TypeEntry, b *sszreg.Binding, spec *common.Spec, hFn tree.HashFn, res map[string]interface{}) *Report {
 	rep := &Report{ID: int(res["id"].(float64)), Type: te.Name, Kind: "value", Devs: []Dev{}, Notes: []string{}}
+	rep.OddVectors = hasOddVector(te.Schema)
 	ser := sszreg.BytesOf(res["ser"])
 	rep.Bytes = len(ser)
 	h := sha256.Sum256(append([]byte(te.Name+"|"), ser...))
@@ -625,6 +627,24 @@ func checkOne(te *sszreg.TypeEntry, b *sszreg.Binding, spec *common.Spec, hFn tr
 		}
 	}
 	return rep
+}
+
+func hasOddVector(s *sszreg.Schema) bool {
+	switch s.Kind {
+	case "vector":
+		return s.N&(s.N-1) != 0 || hasOddVector(s.Elem)
+	case "bitvector", "bytevector":
+		return s.N&(s.N-1) != 0 && s.N > 32
+	case "list":
+		return hasOddVector(s.Elem)
+	case "container":
+		for _, f := range s.Fields {
+			if hasOddVector(f.Schema) {
+				return true
+			}
+		}
+	}
+	return false
 }
 
 func malKind(class string) string {
